@@ -16,7 +16,7 @@ is documented.  Generators draw only inside this table.
 | initial water content | Prop in {WP,FC,SAT}; Pct 0-100; Num in [WP, SAT] of the layer; Layer method: one value per soil layer; Depth method: ascending depths | Notebook 1, property C03 ("between wilting point and saturation") |
 | irrigation | method 0-5; SMT 4 values 0-100; interval >= 1; MaxIrr >= 0; AppEff 50-100; WetSurf 10-100; schedule dates unique, depths >= 0 | IrrigationManagement docstring; irrigation.py assert Irr >= 0 |
 | field management | mulch_pct 0-100, f_mulch 0-1, z_bund >= 0 (m), bund_water >= 0 (mm), CN*(1+pct/100) in [20, 98] | Notebook 1 table; property C02 ("effective curve number <= 100") |
-| groundwater | dates 'YYYYMMDD', depths > 0 m; first observation on the start date; 'Variable' also has one on the end date | Notebook 1 ("linearly interpolated between these dates") |
+| groundwater | dates 'YYYYMMDD', depths > 0 m; first observation on the start date; 'Variable' also has one on the end date and may list its observations in any order (they are date-depth pairs; 'Constant' tables are listed chronologically) | Notebook 1 ("linearly interpolated between these dates") |
 | CO2 | default file, constant concentration, or a yearly series covering the window | CO2 docstring |
 | window | start < end, both 'YYYY/MM/DD', covered by the weather table, <= 580 years | core.py setters, read_weather_inputs, read_clocks_parameters |
 | weather | MinTemp <= MaxTemp, Precipitation >= 0, ReferenceET >= 0.1 (prepare_weather clips) | utils/prepare_weather.py |
